@@ -87,7 +87,9 @@ def families(tier, seed):
         for sc in SCALES:
             for i in range(0, len(tuples), chunk):
                 cases.append({"kind": kind, "sys": sysname, "m": m, "pool": ps, "scale": sc, "tuples": tuples[i:i + chunk]})
-    return [("projections", cases)]
+    # one fixed input (independent of VERIF_SEED) on which the recorded absolute-threshold finding manifests
+    probe = [{"kind": "povm", "sys": "Q1", "m": 4, "pool": 4, "scale": 1e3, "tuples": [[2, 2, 2, 1]], "fixed_seed": 1}]
+    return [("projections", cases + probe)]
 
 
 def guards(summary):
@@ -111,6 +113,7 @@ def close(a, b, scale):
 
 def execute(family, p, seed):
     out = Out()
+    seed = p.get("fixed_seed", seed)
     kind, sysname, m, sc = p["kind"], p["sys"], p["m"], p["scale"]
     F = frame(kind, sysname, m)
     names = pool_names(p["pool"])
@@ -119,6 +122,7 @@ def execute(family, p, seed):
     cfg = "%s:%s:m=%s" % (kind, sysname, m)
     digs = []
     for tup in p["tuples"]:
+        tup = tuple(tup)
         if sc == "mixed":
             blocks = [MIXED[k % len(MIXED)] * block(bd, names[i], seed) for k, i in enumerate(tup)]
         else:
@@ -142,8 +146,23 @@ def execute(family, p, seed):
         else:
             out.count("already_feasible_ineq")
 
+        # The library truncates imaginary rounding noise with an ABSOLUTE threshold (default atol = 1e-13) and raises above
+        # it.  At scales > 10 the noise of an eigen-decomposition exceeds that, so there the projections are driven with
+        # an explicit threshold (the documented knob), and the default-threshold behaviour is probed separately.
+        big = scale > 10.0
+        ekw = {"eps_truncate_imaginary_part": 1e-11 * scale} if big else {}
+        if big:
+            probe = F.make(x0)
+            okp, rp = A.call(probe.calc_proj_ineq_constraint)
+            out.ops += 1
+            if not okp:
+                if isinstance(rp, ValueError) and "imaginary parts" in str(rp):
+                    out.fail("ineq-projection:raises:imag-truncation-absolute-threshold:scale>10",
+                             "%s tuple=%r scale=%s with the default eps_truncate_imaginary_part: %s" % (cfg, tup, sc, A.fmt_exc(rp)[:160]))
+                else:
+                    out.fail("obj.calc_proj_ineq_constraint:raises:%s" % tag, "default threshold, tuple=%r: %s" % (tup, A.fmt_exc(rp)))
         # ---------- object level
-        obj = F.make(x0)
+        obj = F.make(x0, **ekw)
         snap = F.stacked(obj)
         ok, pe = A.call(obj.calc_proj_eq_constraint)
         out.ops += 1
@@ -186,12 +205,12 @@ def execute(family, p, seed):
         if not np.array_equal(F.stacked(obj), snap):
             out.fail("obj.calc_proj:mutates-self:%s" % cfg, "tuple=%r" % (tup,))
         # fixed points: feasible in -> same out
-        fa = F.make(xa)
+        fa = F.make(xa, **ekw)
         ok, r = A.call(fa.calc_proj_eq_constraint)
         out.ops += 1
         if not ok or np.abs(F.stacked(r) - xa).max() > 1e-11 * scale:
             out.fail("obj.calc_proj_eq_constraint:moves-feasible:%s" % cfg, "tuple=%r scale=%s" % (tup, sc))
-        fb = F.make(xb)
+        fb = F.make(xb, **ekw)
         ok, r = A.call(fb.calc_proj_ineq_constraint)
         out.ops += 1
         if not ok:
@@ -205,12 +224,12 @@ def execute(family, p, seed):
             v0 = F.var_from_stacked(base, flag)
             exp_eq = F.var_from_stacked(F.PA(base), flag)
             exp_in = F.var_from_stacked(F.PB(base), flag)
-            tmpl = F.make(base, on_para_eq_constraint=flag)
+            tmpl = F.make(base, on_para_eq_constraint=flag, **ekw)
             if flag:
                 out.count("flag_true_checked")
             routes = [
                 ("with_var.eq", lambda v: cls.calc_proj_eq_constraint_with_var(F.c_sys, v, on_para_eq_constraint=flag), exp_eq),
-                ("with_var.ineq", lambda v: cls.calc_proj_ineq_constraint_with_var(F.c_sys, v, on_para_eq_constraint=flag), exp_in),
+                ("with_var.ineq", lambda v: cls.calc_proj_ineq_constraint_with_var(F.c_sys, v, on_para_eq_constraint=flag, **ekw), exp_in),
                 ("func.eq", lambda v: tmpl.func_calc_proj_eq_constraint(flag)(v), exp_eq),
                 ("func.ineq", lambda v: tmpl.func_calc_proj_ineq_constraint(flag)(v), exp_in),
                 ("func_with_var.eq", lambda v: tmpl.func_calc_proj_eq_constraint_with_var(flag)(v), exp_eq),
@@ -227,7 +246,12 @@ def execute(family, p, seed):
                 out.count("closures_checked")
                 site = "%s:flag=%s" % (rname, flag)
                 if not ok:
-                    out.fail("%s:raises:%s" % (site, tag), "tuple=%r: %s" % (tup, A.fmt_exc(got)))
+                    if big and isinstance(got, ValueError) and "imaginary parts" in str(got):
+                        # closure routes that rebuild the object with the default threshold (generate_from_var)
+                        out.fail("ineq-projection:raises:imag-truncation-absolute-threshold:scale>10",
+                                 "%s via %s tuple=%r scale=%s: %s" % (cfg, site, tup, sc, A.fmt_exc(got)[:160]))
+                    else:
+                        out.fail("%s:raises:%s" % (site, tag), "tuple=%r: %s" % (tup, A.fmt_exc(got)))
                     continue
                 good, err = close(got, expv, scale)
                 if not good:
